@@ -185,3 +185,20 @@ CHECKS["C14"] = {
     "technique": "contract-based deductive verification: symbolic sums with congruence/bound rules, loop invariants over the toy loops, z3; native replay with stubs",
 }
 NOT_APPLICABLE.pop("C14", None)
+
+CHECKS["C05"] = {
+    "category": "proof",
+    "text": ("What pyhf itself does around the external minimisers is executed symbolically on the current source: twice_nll == -2 logpdf; "
+             "_validate_fit_inputs raises ValueError iff an initial value is outside its bounds (loop invariant, any number of parameters); fit: "
+             "defaults iff a setting is missing, fixed_vals == {(i, init[i]) : fixed[i]} (filtered comprehension characterised element-wise), all "
+             "arguments and kwargs forwarded to opt.minimize; fixed_poi_fit: UnspecifiedPOI iff no POI, POI value set and flagged fixed on COPIES, the "
+             "caller's lists never written; shim / stitch_pars (bounded: <= 4 parameters, every fixed subset, values symbolic): start values and "
+             "bounds of exactly the free parameters, every fixed value and free parameter back at its own position; opt_numpy.wrap_objective; scipy / "
+             "minuit adapters: equality constraint vanishes iff every fixed parameter is at its value, fixed flags, limits, tolerances, maxiter "
+             "forwarded, unknown options refused; _internal_minimize raises FailedMinimization iff not success; minimize layout for all flag "
+             "combinations. Feasibility and honesty of a reported fit follow by a lemma from these contracts and the documented behaviour of "
+             "SLSQP / MIGRAD. NOT decided: optimality, success on closed-form models, independence of stitch / grad / optimiser / backend."),
+    "note": "external minimisers uninterpreted (assumed to respect bounds / constraints / fixed flags and to report fun == func(x)); pdf.logpdf is C02",
+    "technique": "contract-based deductive verification: symbolic execution of the fit wiring with uninterpreted minimisers, loop invariant, z3; native replay with recording stubs",
+}
+NOT_APPLICABLE.pop("C05", None)
